@@ -26,13 +26,16 @@ CornerIdx(n) == IF Len(n) = 2 THEN << <<0, 0>>, <<n[1] - 1, 0>>, <<0, n[2] - 1>>
 IndexOnly == {"crop", "pad", "center_crop", "center_pad", "narrow", "roi"}
 PureCrop == {"crop", "center_crop", "narrow"}
 PoolWindowOK(gp, o, j) == o.op = "pool" => \A k \in 1..Len(j) : o.k * j[k] + o.k - 1 <= gp.n[k] - 1
+\* a symmetric unit-sum kernel reproduces the ramp at output sample j iff its whole support lies on samples of the input grid gp
+ConvWindowOK(gp, o, j) == o.op = "conv" =>
+    \A k \in 1..Len(j) : LET jj == IF o.valid THEN j[k] + o.r[k] ELSE j[k] IN jj - o.r[k] >= 0 /\ jj + o.r[k] <= gp.n[k] - 1
 Clean(gs, ops, j, x) ==
-    IF Len(ops) = 1 THEN InHullOf(gs[1], x) /\ PoolWindowOK(gs[1], ops[1], j)
+    IF Len(ops) = 1 THEN InHullOf(gs[1], x) /\ PoolWindowOK(gs[1], ops[1], j) /\ ConvWindowOK(gs[1], ops[1], j)
     ELSE IF ops[2].op \in IndexOnly
          THEN /\ InHullOf(gs[1], x) /\ InHullOf(gs[2], x)
-              /\ ops[1].op # "pool"
+              /\ ops[1].op \notin {"pool", "conv"}
          ELSE /\ ops[1].op \in PureCrop /\ (ops[1].op = "crop" => \A k \in 1..Len(j) : ops[1].lo[k] >= 0 /\ ops[1].hi[k] >= 0)
-              /\ InHullOf(gs[2], x) /\ PoolWindowOK(gs[2], ops[2], j)
+              /\ InHullOf(gs[2], x) /\ PoolWindowOK(gs[2], ops[2], j) /\ ConvWindowOK(gs[2], ops[2], j)
 ProbesOfChain(b, ops, a, bb) ==
     LET gs == GridsAlong(b, ops)
         gf == gs[Len(gs)]
